@@ -136,18 +136,39 @@ func (el *ErrorListener) ReportContextSensitivity(recognizer antlr.Parser, dfa *
 func ParseZqlString(text string) string {
 	t := strings.TrimSuffix(strings.TrimPrefix(text, `"`), `"`)
 
-	//remove golang string back slash escaping
-	t = strings.Replace(t, `\\`, `\`, -1)
+	if !strings.Contains(t, `\`) {
+		return t
+	}
 
-	//remove ZitiQL string escaping
-	t = strings.Replace(t, `\"`, `"`, -1)
-	t = strings.Replace(t, `\f`, "\f", -1)
-	t = strings.Replace(t, `\n`, "\n", -1)
-	t = strings.Replace(t, `\r`, "\r", -1)
-	t = strings.Replace(t, `\t`, "\t", -1)
-	t = strings.Replace(t, `\\`, `\`, -1)
+	// remove ZitiQL string escaping in a single pass, so that the output of one
+	// escape sequence is never re-read as the start of another
+	b := strings.Builder{}
+	b.Grow(len(t))
+	for i := 0; i < len(t); i++ {
+		c := t[i]
+		if c != '\\' || i+1 == len(t) {
+			b.WriteByte(c)
+			continue
+		}
+		i++
+		switch t[i] {
+		case '\\', '"':
+			b.WriteByte(t[i])
+		case 'f':
+			b.WriteByte('\f')
+		case 'n':
+			b.WriteByte('\n')
+		case 'r':
+			b.WriteByte('\r')
+		case 't':
+			b.WriteByte('\t')
+		default:
+			b.WriteByte('\\')
+			b.WriteByte(t[i])
+		}
+	}
 
-	return t
+	return b.String()
 }
 
 var dateTimeStripper = regexp.MustCompile(`^\s*datetime\(\s*(.*?)\s*\)\s*$`)
